@@ -36,7 +36,7 @@ Definition consts : ds_consts :=
      login_name_max := 256%N |}.
 
 Definition table : list ds_entry := [
-  {| de_name := "cgroup"; de_symbol := "snoopy_datasource_cgroup"; de_calls := ["strcmp"; "getpid"; "snoopy_util_file_getSmallTextFileContent"; "snoopy_util_string_containsOnlyDigits"; "strlen"; "snoopy_util_string_findLineStartingWith"; "snoopy_util_string_nullTerminateLine"; "strtok_r"; "doesCgroupEntryContainController"]; de_tree :=
+  {| de_name := "cgroup"; de_symbol := "snoopy_datasource_cgroup"; de_calls := ["strcmp"; "getpid"; "snoopy_util_file_getSmallTextFileContent"; "snoopy_util_string_containsOnlyDigits"; "strlen"; "snoopy_util_string_findLineStartingWith"; "snoopy_util_string_nullTerminateLine"; "strtok_r"; "strchr"]; de_tree :=
     (TOther "loop") |};
   {| de_name := "cmdline"; de_symbol := "snoopy_datasource_cmdline"; de_calls := ["snoopy_inputdatastorage_get"]; de_tree :=
     (TOther "loop") |};
@@ -129,7 +129,7 @@ Definition table : list ds_entry := [
     (TPrint [x25; x75] [(ECall F_getpid [])]) |};
   {| de_name := "ppid"; de_symbol := "snoopy_datasource_ppid"; de_calls := ["getppid"]; de_tree :=
     (TPrint [x25; x75] [(ECall F_getppid [])]) |};
-  {| de_name := "rpname"; de_symbol := "snoopy_datasource_rpname"; de_calls := ["get_rpname"; "getpid"]; de_tree :=
+  {| de_name := "rpname"; de_symbol := "snoopy_datasource_rpname"; de_calls := ["getpid"; "atoi"; "fopen"; "getline"; "strstr"; "strchr"; "strcmp"; "strlen"; "strncpy"; "fclose"; "strdup"]; de_tree :=
     (TRet (ECall (F_other "get_rpname") [(ECall F_getpid []); EBuf0; ESize])
           EBuf0) |};
   {| de_name := "sid"; de_symbol := "snoopy_datasource_sid"; de_calls := ["getsid"]; de_tree :=
